@@ -1,5 +1,6 @@
 import XpmVerif.Generated.InstSrc
 import XpmVerif.Model.Serial
+import XpmVerif.Properties.C13
 /-! C13 — source obligations for `Generated/InstSrc.lean` (the order of effects of the routes that create runtime objects, read
     off the Python AST on every run by harness/xv/translate/instsrc.py): the hand-written logs of the model M5
     (`instanceLog`, `loadObjectsLog`, `loadInstanceLog`, `runLog`: what `C13.instances_one_per_node`, `post_init_once_after_set`,
@@ -166,6 +167,35 @@ theorem runLog_is_source (defs : List Def) :
   rw [inst_plan_is_source.2.1, inst_plan_is_source.2.2.1, inst_plan_is_source.2.2.2]
   exact ⟨loadInstanceLog_follows_plan defs, runLog_follows_plan defs⟩
 
+/-- `C13.pretasks_once` for the order of effects found in the source: under the plan of `FromPython` / `fromConfig` read off the
+    AST, a lightweight task is executed exactly once if it is a pre-task of some newly built configuration, never otherwise. -/
+theorem pretasks_once_applies_to_source (g : Graph) (cons : List Nat) (root : Nat) (p : Nat) :
+    (instanceLogPlan Gen.fromPythonSrc g cons root).count (Ev.exec p) =
+      (if ∃ n ∈ exitsOf (instanceWalk g cons root).trace, p ∈ (g.node n).preTasks then 1 else 0) := by
+  rw [← instanceLog_is_source]
+  exact (C13.pretasks_once g cons root).1 p
+
+/-- `C13.post_init_once_after_set` for the order of effects found in the source. -/
+theorem post_init_once_applies_to_source (g : Graph) (cons : List Nat) (root : Nat) (hwf : WFInst g) (hr : root < g.size) (n : Nat)
+    (hn : n ∈ entersOf (instanceWalk g cons root).trace) :
+    ∃ l1 l2, instanceLogPlan Gen.fromPythonSrc g cons root
+        = l1 ++ ((presentNames (g.node n)).map (Ev.set n) ++ [Ev.postInit n]) ++ l2 ∧
+      Ev.postInit n ∉ l1 ∧ Ev.postInit n ∉ l2 ∧ (∀ a, Ev.set n a ∉ l1) ∧ (∀ a, Ev.set n a ∉ l2) ∧ Ev.init n ∈ l1 := by
+  rw [← instanceLog_is_source]
+  exact (C13.post_init_once_after_set g cons root hwf hr n).1 hn
+
+/-- `C13.init_after_pre_before_body` for the order of effects found in the source (`run.py::run` → `fromParameters` →
+    `load_objects`): construction of all objects, then every pre-task once, then the init tasks of the task, then its body. -/
+theorem init_after_pre_before_body_applies_to_source (fl : Flags) (lib : List Cls) (sg : SGraph) (root : Nat)
+    (hwf : ∀ n, n < sg.g.size → ∀ m ∈ succAll sg.g n, m < sg.g.size) (hr : root < sg.g.size) :
+    let defs := serialize fl lib sg [root]
+    ∃ build,
+      runLogPlan Gen.runSrc Gen.loadSrc Gen.fromParamsSrc defs
+        = build ++ (preList defs).map Ev.exec ++ ((sg.g.node root).initTasks).map Ev.exec ++ [Ev.body root] ∧
+      (∀ p, Ev.exec p ∉ build) ∧ (∀ n, Ev.body n ∉ build) ∧ (preList defs).Nodup := by
+  intro defs
+  obtain ⟨b, h1, h2, h3, h4, _⟩ := C13.init_after_pre_before_body fl lib sg root hwf hr
+  exact ⟨b, (runLog_is_source defs).2 ▸ h1, h2, h3, h4⟩
 /-- the plans matter: `__post_init__` before the attribute copy is observed by the log (the parameters are set afterwards);
     pre-tasks gathered without identity are executed twice when two configurations share one. -/
 example :
